@@ -4,6 +4,7 @@
 From Coq Require Import NArith List Bool Arith.
 From Mpc Require Import Base.Codec Circuit.Circuit Gmw.Gmw Gmw.Pool Gmw.GmwProof Gmw.PoolSync Gmw.PoolSyncProof.
 Import ListNotations.
+From Mpc Require Gen.State Base.StateExpected Base.StateCheck Base.StatePkgs.
 Local Open Scope nat_scope.
 
 (* (1) For every number of parties n (any n, in particular n >= 2), every
@@ -178,3 +179,16 @@ Theorem C10_last_word_count :
     1 <= cnt <= 64 /\ (n mod 64 = 0 -> cnt = 64).
 Proof. exact last_word_count. Qed.
 Print Assumptions C10_last_word_count.
+
+(* STATE INVENTORY (finite obligation on the model regenerated from the source, checked by
+   computation).  The struct fields and package-level variables of the Go packages this
+   property is anchored in — circuit, gmw, ot — as emitted from /repo's current
+   source by harness/gen_state.go (Gen/State.v) are exactly those the models above were written
+   against (Base/StateExpected.v).  A new field or variable (a cache, a memo, a pool, a counter,
+   a changed field type) is state the models do not have: this obligation then breaks and the
+   property is no longer shown to hold until the change has been reviewed against the model. *)
+Theorem C10_state_inventory :
+  Mpc.Base.StateCheck.state_unchanged Mpc.Gen.State.state_inventory Mpc.Base.StateExpected.expected_state
+    Mpc.Base.StatePkgs.pkgs_C10 = true.
+Proof. vm_compute. reflexivity. Qed.
+Print Assumptions C10_state_inventory.
